@@ -32,6 +32,8 @@ Proof. intros H. unfold add_consts. rewrite H. reflexivity. Qed.
 (* one-step unfoldings of the big compile function, by computation *)
 Lemma compile_NInt f z : compile (S f) (NInt z) = bind (constant (KInt z)) (fun k => ret (I [opLoadConst; k])).
 Proof. reflexivity. Qed.
+Lemma compile_NString f v : compile (S f) (NString v None) = bind (constant (KStr v)) (fun k => ret (I [opLoadConst; k])).
+Proof. reflexivity. Qed.
 Lemma compile_NBool f b : compile (S f) (NBool b) = ret (I [if b then opTrue else opFalse]).
 Proof. reflexivity. Qed.
 Lemma compile_NNil f : compile (S f) NNil = ret (I [opNil]).
@@ -136,11 +138,12 @@ Theorem compile_scalar_res : forall names n e f st w r,
   inr (I (fst (cexp (length (w_consts w)) e)), add_consts st (snd (cexp (length (w_consts w)) e))).
 Proof.
   intros names n.
-  induction e as [z|b| |i|a IHa|a IHa|o a IHa b IHb|a IHa b IHb|a IHa b IHb|c IHc t IHt e IHe];
+  induction e as [z|b| |str|i|a IHa|a IHa|o a IHa b IHb|a IHa b IHb|a IHa b IHb|c IHc t IHt e IHe];
     intros f st w r Hst Ht Hwf Hf; cbn [height] in Hf; (destruct f as [|f]; [lia|]); cbn [embed]; cbn [wf] in Hwf.
   - rewrite compile_NInt. unfold bind. rewrite (constant_spec _ _ _ _ Hst). reflexivity.
   - rewrite compile_NBool. cbn. rewrite (add_consts_nil _ _ _ Hst). reflexivity.
   - rewrite compile_NNil. cbn. rewrite (add_consts_nil _ _ _ Hst). reflexivity.
+  - rewrite compile_NString. unfold bind. rewrite (constant_spec _ _ _ _ Hst). reflexivity.
   - apply Nat.ltb_lt in Hwf. rewrite compile_NIdent. unfold bind.
     rewrite (res_ok_here names st n w r i Hst Ht Hwf). cbn. rewrite (add_consts_nil _ _ _ Hst). reflexivity.
   - rewrite compile_NPrefix. unfold bind. rewrite (IHa f st w r Hst Ht Hwf) by lia.
